@@ -14,3 +14,37 @@ Definition state_free_b : bool :=
   forallb (fun c => forallb (read_ok c) (c_global_reads c)) class_table.
 Lemma state_free_table : state_free_b = true.
 Proof. vm_compute. reflexivity. Qed.
+
+(* ---- C15 / C16: the process-global mutable state of the package is exactly the reviewed one ----------------- *)
+(* Every module-/class-level name bound to a mutable container or memo table (discovered from the AST of the current source,
+   never listed by hand) has been reviewed: each is either a cache used through the cached-call pattern (LRU.v), an
+   identity table (Expr._instances: equal names = equal expressions), or a constant table that is never written.  A NEW
+   piece of process-global state (or a known one read from a new module-level function) must be reviewed before the
+   transparency theorems may be applied to the package again: the obligation below then fails. *)
+Definition mutable_globals_reviewed : list (string * string) := [
+  ("Expr._instances", "_core.py");
+  ("FragmentWrapper._filesystems", "io/parquet.py");
+  ("Index._cat_attributes", "_collection.py");
+  ("Index._dt_attributes", "_collection.py");
+  ("_STATS_CACHE", "io/parquet.py");
+  ("__all__", "diagnostics/__init__.py");
+  ("_cached_plan", "io/parquet.py");
+  ("divisions_lru", "_shuffle.py");
+  ("make", "datasets.py");
+  ("mem_usages_lru", "_repartition.py");
+  ("names", "datasets.py") ].
+Definition function_global_reads_reviewed : list (string * string) := [
+  ("_repartition.py:_get_mem_usages", "mem_usages_lru");
+  ("_shuffle.py:_get_divisions", "divisions_lru");
+  ("datasets.py:make_categorical", "names");
+  ("datasets.py:make_string", "names");
+  ("io/parquet.py:_collect_statistics_plan", "_STATS_CACHE");
+  ("io/parquet.py:_control_cached_plan", "_cached_plan");
+  ("io/parquet.py:to_parquet", "_cached_plan") ].
+Definition pair_eqb (a b : string * string) : bool := String.eqb (fst a) (fst b) && String.eqb (snd a) (snd b).
+Definition subset_b (l1 l2 : list (string * string)) : bool := forallb (fun a => existsb (pair_eqb a) l2) l1.
+(* no unreviewed state (entries that disappeared are harmless) *)
+Lemma global_state_reviewed : subset_b mutable_globals mutable_globals_reviewed = true.
+Proof. vm_compute. reflexivity. Qed.
+Lemma function_global_reads_are_reviewed : subset_b function_global_reads function_global_reads_reviewed = true.
+Proof. vm_compute. reflexivity. Qed.
